@@ -252,6 +252,14 @@ fn main() {
             let c = match rp["engine"].as_str().unwrap_or("") {
                 "seq" => seq::replay(rp),
                 "e2" => e2::replay(rp),
+                "e2-scripts" => {
+                    let (fs, n) = e2::script_appenders();
+                    println!("frames {}", n);
+                    for f in &fs {
+                        println!("finding {}: {}", f.kind, f.msg);
+                    }
+                    if fs.is_empty() { 0 } else { 1 }
+                }
                 "e2-stress" => {
                     let (fs, n) = e2::stress_c02();
                     println!("frames {}", n);
